@@ -151,7 +151,7 @@ def run(ctx):
 
 def synthetic(ctx):
     rng = ctx.rng
-    nsys = ctx.scale(32, 1600)
+    nsys = ctx.scale(96, 3200)
     specs, metas = [], []
     for s in range(nsys):
         sysm = synth.System(rng, tag=f"c05s{ctx.shard}x{s}")
